@@ -378,13 +378,14 @@ public:
 		Map < String, T>(b) {}
 	void operator=(std::initializer_list< KV > b)
 	{
-		this->clear();
-		this->reserve((int)b.size());
+		Dic d; // a KV holds its value by reference, possibly to a value of this Dic: build the new contents before releasing the old ones
+		d.reserve((int)b.size());
 		for (int i = 0; i < (int)b.size(); i++)
 		{
 			const KV& kv = b.begin()[i];
-			(*this)[kv.key] = kv.value;
+			d[kv.key] = kv.value;
 		}
+		this->a = d.a;
 	}
 #endif
 
